@@ -2,6 +2,7 @@ mod common;
 mod c11;
 mod c15;
 mod c16;
+mod c17;
 mod world;
 mod rules;
 mod ir;
@@ -32,9 +33,11 @@ fn main() {
         }
         i += 1;
     }
-    if prop != "SHOW" { std::fs::create_dir_all(&outdir).unwrap(); }
+    if prop != "SHOW" && prop != "PROBE" && prop != "TRANSLATE" { std::fs::create_dir_all(&outdir).unwrap(); }
     // panics are outcomes, not noise
-    if std::env::var("QV_DEBUG").is_err() { std::panic::set_hook(Box::new(|_| {})); }
+    if std::env::var("QV_DEBUG").is_err() { common::install_panic_recorder(); }
+    if prop == "PROBE" { common::install_panic_recorder(); c17::probe(&outdir, args.get(3).map(|s| s.as_str()).unwrap_or("postgresql")); return; }
+    if prop == "TRANSLATE" { c17::show(&outdir, args.get(3).map(|s| s.as_str()).unwrap_or("postgresql")); return; }
     if prop == "SHOW" {
         // developer aid: qvh SHOW "<sql>" [dp|pup|plain]
         use qrlew::relation::Variant as _;
@@ -69,6 +72,8 @@ fn main() {
         "C01" => dp::run_c01(&outdir, seed, thorough),
         "C09" => dp::run_c09(&outdir, seed, thorough),
         "C16" => c16::run(&outdir, seed, thorough),
+        "C17" => c17::run(&outdir, seed, thorough),
+        "GEN-DIALECTS" => { c17::generate(&outdir); return; }
         "C04" => dp::run_c04(&outdir, seed, thorough),
         "GEN-FNMETA" => { if let Err(e) = c14::generate(&outdir) { eprintln!("{}", e); std::process::exit(1); } return; }
         "GEN-RULES" => { if let Err(e) = rules::generate(&outdir) { eprintln!("{}", e); std::process::exit(1); } return; }
